@@ -87,15 +87,22 @@ def _insert_loop_specs(fn_text, loops, log, where):
     return fn_text
 
 
-def _apply_inserts(body, inserts, where):
+def _apply_inserts(body, inserts, where, log=None):
     """Ghost code keyed by a code-text anchor: (anchor_regex, ghost_text[, occurrence]) -- the ghost text
-    is inserted right after the anchor (which must end a statement).  A lost anchor is exit 2."""
+    is inserted right after the anchor (which must end a statement).  A LOST anchor does not stop the run:
+    the hint is skipped, the loss is recorded (rule A0) and the function is verified without it; if it then
+    fails, the failure only counts as a violation when a failing input is found (see check: anchor policy)."""
     for ins in inserts or []:
         pat, ghost = ins[0], ins[1]
         ms = list(re.finditer(pat, body))
         which = ins[2] if len(ins) > 2 else None
         if which is None:
             if len(ms) != 1:
+                if log is not None:
+                    log.append({"rule": "A0", "site": where, "pattern": pat,
+                                "replacement": "(ghost-hint anchor matched %d times: hint skipped)" % len(ms), "count": 0,
+                                "anchor_lost": True})
+                    continue
                 raise Unsupported("%s: ghost-insert anchor /%s/ matched %d times (expected 1) -- anchor lost"
                                   % (where, pat, len(ms)))
             m = ms[0]
@@ -115,7 +122,7 @@ def _transform_fn(item, spec, log, where):
     sig = _apply_rewrites(sig, spec.get("sig_rewrites", []), log, where + " (signature)")
     body = _apply_rewrites(body, spec.get("rewrites", []), log, where + " (body)")
     body = _insert_loop_specs(body, spec.get("loops"), log, where)
-    body = _apply_inserts(body, spec.get("inserts"), where)
+    body = _apply_inserts(body, spec.get("inserts"), where, log)
     if spec.get("body_start"):
         body = "{\n" + spec["body_start"] + "\n" + body[1:]
     if spec.get("body_end"):
